@@ -195,6 +195,17 @@ func (v *Validator) VerifyNewConfirms(block *types.Block, sigList []types.SignDa
 	validConfirms := make([]types.SignData, 0, len(sigList))
 	var lastErr error = nil
 
+	// A deputy is counted once, however many different signatures he made. So collect the nodes which have signed
+	signedNodes := make(map[string]struct{}, len(block.Confirms)+len(sigList)+1)
+	if minerNodeID, err := block.SignerNodeID(); err == nil {
+		signedNodes[string(minerNodeID)] = struct{}{}
+	}
+	for _, oldSig := range block.Confirms {
+		if oldNodeID, err := oldSig.RecoverNodeID(hash); err == nil {
+			signedNodes[string(oldNodeID)] = struct{}{}
+		}
+	}
+
 	for _, sig := range sigList {
 		// 判断validConfirms中是否已经存在sig了
 		if IsSigExist(validConfirms, sig) {
@@ -219,6 +230,14 @@ func (v *Validator) VerifyNewConfirms(block *types.Block, sigList []types.SignDa
 			log.Warn("Duplicate confirm", "hash", hash.Hex(), "signer", common.ToHex(nodeID[:4]))
 			continue
 		}
+		if _, ok := signedNodes[string(nodeID)]; ok {
+			log.Warn("Duplicate confirm signer", "hash", hash.Hex(), "signer", common.ToHex(nodeID[:4]))
+			if lastErr == nil {
+				lastErr = ErrExistedConfirm
+			}
+			continue
+		}
+		signedNodes[string(nodeID)] = struct{}{}
 		validConfirms = append(validConfirms, sig)
 	}
 	return validConfirms, lastErr
